@@ -192,7 +192,7 @@ func oracle(r *scen.Runner, sp *scen.Sprint) *harn.Failure {
 }
 
 var opts = scen.GenOpts{
-	World:     world.Opts{MaxFlows: 3, MaxNodes: 5, Background: true, Voice: true, Adversarial: true, LongTexts: true, Languages: []string{"fra"}},
+	World:     world.Opts{MaxFlows: 3, MaxNodes: 5, Background: true, Voice: true, Adversarial: true, LongTexts: true, Languages: []string{"fra"}, BrokenFlow: true},
 	LowLimits: true,
 	Restarts:  true,
 	Inputs:    []string{strings.Repeat("é", 700), strings.Repeat("long word ", 200), strings.Repeat("日本語", 300)},
